@@ -30,6 +30,7 @@ ASSUMPTIONS = [
 KNOWN_FAMILY = ['sqdm', 'cbdm', 'dm2', 'dm3']
 KNOWN_SINGPLUR = ['gal']
 KNOWN_UNREACHABLE = ['T', 'link']
+KEYWORDS = ['to', 'as', 'in', 'per', 'of', 'mod', 'xor', 'and', 'or', 'XOR', 'AND', 'OR']
 
 
 def impl_resolve(c, ctx, idents, timeout=None):
@@ -63,6 +64,15 @@ def frac_lit(q):
 
 
 def check(c):
+    try:
+        _check(c)
+    finally:
+        c.repr_drift += U.DRIFT['pi_approximation_flagged_exact']
+        if U.DRIFT['pi_approximation_flagged_exact']:
+            c.notes.append('values flagged exact by fend although they hold its approximation of pi (flag dropped in to_hashmap_and_scale): %d' % U.DRIFT['pi_approximation_flagged_exact'])
+
+
+def _check(c):
     r = c.rng
     c.rule = ('exhaustive: every table name and currency identifier (resolve status, model = implementation value, `1 <name>`, singular == plural), '
               'every prefix-side name x every name (status, model vs implementation); sampled: values of prefixed names, `(1 <p><u>) == (<factor> <u>)`, '
@@ -221,10 +231,12 @@ def check(c):
     # C and F mean coulomb / farad after a prefix but celsius / fahrenheit alone (C/F mode)
     plain = [(p, u) for p, u in legal_ok if legal(p, u) and u not in ('C', 'F') and (p + u) not in name_val
              and prefix_factor(p) is not None and is_plain_split(p, u, prefixes, name_val)]
-    samp2 = plain if c.tier == 'thorough' else r.sample(plain, min(1500, len(plain)))
+    samp2 = plain if c.tier == 'thorough' else r.sample(plain, min(1500, len(plain))) + [(p, u) for p, u in plain if (p + u) in KEYWORDS]
     eq = l2(c, ctx, ['(1 %s%s) == (%s %s)' % (p, u, frac_lit(prefix_factor(p)), u) for p, u in samp2])
     for (p, u), e in zip(samp2, eq):
         if e != ('o', 'true'):
+            if (p + u) in KEYWORDS and e[0] == 'e' and c.known_finding('prefixed_name_is_keyword'):
+                continue
             c.violation('prefixed-name-wrong-factor', {'kind': 'impl-vs-spec', 'input': '(1 %s%s) == (%s %s)' % (p, u, frac_lit(prefix_factor(p)), u), 'impl': e})
     if samp2:
         c.sample({'op': 'L2', 'input': '(1 %s%s) == (%s %s)' % (samp2[0][0], samp2[0][1], frac_lit(prefix_factor(samp2[0][0])), samp2[0][1]), 'impl': eq[0]})
